@@ -313,3 +313,43 @@ func ordinalOf[T ast.Node](nodes []T, n ast.Node) int {
 }
 
 func exprString(e ast.Expr) string { return types.ExprString(e) }
+
+// isCleanupVar: v is the local bound to the second result (the trailer-writing closure) of tarext.NewTapeWriter.
+func isCleanupVar(f *FuncInfo, v types.Object) bool {
+	if v == nil {
+		return false
+	}
+	root := f
+	for root.Outer != nil {
+		root = root.Outer
+	}
+	info := root.Pkg.TypesInfo
+	found := false
+	ast.Inspect(root.Body(), func(n ast.Node) bool {
+		as, ok := n.(*ast.AssignStmt)
+		if !ok || len(as.Rhs) != 1 || len(as.Lhs) < 2 {
+			return true
+		}
+		call, ok := ast.Unparen(as.Rhs[0]).(*ast.CallExpr)
+		if !ok {
+			return true
+		}
+		if fn, ok := calleeObj(info, call).(*types.Func); ok && fn.Name() == "NewTapeWriter" && inRepo(fn) {
+			if objOfIdent(info, as.Lhs[1]) == v {
+				found = true
+			}
+		}
+		return true
+	})
+	return found
+}
+
+// isSourceCallback: v is a parameter of function type returning (config.FileConfig, error) - the member source.
+func isSourceCallback(v *types.Var) bool {
+	sig, ok := v.Type().Underlying().(*types.Signature)
+	if !ok || sig.Params().Len() != 0 || sig.Results().Len() != 2 {
+		return false
+	}
+	n, ok := sig.Results().At(0).Type().(*types.Named)
+	return ok && n.Obj().Name() == "FileConfig"
+}
